@@ -402,7 +402,6 @@ Section P.
     set (st1 := gset_dep (gset_sig (gwr st p) el) d').
     rewrite (elems_ok l HF st1 (g_written st + len p) _ el); subst st1; autorewrite with gst; try assumption; try reflexivity.
     2:{ rewrite Hs', Ha', Ht'. assumption. }
-    2:{ lia. }
     2:{ replace (g_pos0 st + (g_written st + len p)) with (gabs st + len p) by (unfold gabs; lia).
         subst p. rewrite len_pad. apply padn_after, galign_nz. }
     rewrite N.sub_diag. cbn [bind]. unfold gseq_end. autorewrite with gst. rewrite Hdec.
